@@ -24,7 +24,7 @@ def main():
         ck.broken.append("Spec/C09Oracle.v / Model/ProtocolCheck.v do not build")
         ck.finish(BASE_TRUST + PROTO_TRUST)
     tmpd = tempfile.mkdtemp(prefix="lsf_c09_")
-    sizes = [("seq", 900 if thorough else 150), ("fanout_ok", 500 if thorough else 80), ("fanout_fail", 500 if thorough else 80), ("fanout_fail_nested", 200 if thorough else 80)]
+    sizes = [("seq", 900 if thorough else 150), ("fanout_ok", 500 if thorough else 80), ("fanout_fail", 500 if thorough else 80), ("fanout_fail_nested", 200 if thorough else 80), ("children", 200 if thorough else 50)]
     F22 = ("F22", lambda d: d.get("nested_fanout_with_failure"))
 
     def desc(info):
@@ -64,7 +64,7 @@ def main():
         if info.status == "exception":
             d = desc(info)
             ck.violation("an engine callback raised %s: the process would stop, the execution never ends and its event is never acknowledged: %s"
-                         % (info.exception["error"], json.dumps({k: d[k] for k in ("profile", "schedule", "definition", "inputs")})[:1200]), {"case": d})
+                         % (info.exception["error"], json.dumps({k: d[k] for k in ("profile", "schedule", "definition", "child_definition", "inputs") if k in d})[:1200]), {"case": d})
             break
     r = ck.eval_cases("replay", "PyStr Cases TraceSpec Protocol ProtocolCheck", "proto_case", pcases, ["proto_model"], per_file=25, timeout=900, prelude=PRE)
     if r is not None:
@@ -92,7 +92,7 @@ def main():
                     ck.known_finding(kf, what[f])
                     continue
                 d["api"] = raws[i]
-                ck.violation("%s: %s" % (what[f], json.dumps({k: d[k] for k in ("profile", "schedule", "definition", "inputs")})[:1500]), {"case": d, "monitor": f})
+                ck.violation("%s: %s" % (what[f], json.dumps({k: d[k] for k in ("profile", "schedule", "definition", "child_definition", "inputs") if k in d})[:1500]), {"case": d, "monitor": f})
     print("api done at %.0fs" % (_t.time() - ck.t0), file=sys.stderr)
     ck.add_group("api", len(cases), sum(1 for x in raws if len(x["history"]) > 4), [{"run": desc(cdesc[0]), "api": raws[0]}] if raws else [],
                  events=sum(len(x["history"]) for x in raws), express=sum(1 for i in cdesc if i.profile == "express"))
@@ -101,7 +101,7 @@ def main():
     if r is not None:
         for i in r["prefix_chain"][:3]:
             d = desc(chdesc[i])
-            ck.violation("the stored history was changed other than by appending: %s" % json.dumps({k: d[k] for k in ("profile", "schedule", "definition", "inputs")})[:1500], {"case": d, "monitor": "prefix_chain"})
+            ck.violation("the stored history was changed other than by appending: %s" % json.dumps({k: d[k] for k in ("profile", "schedule", "definition", "child_definition", "inputs") if k in d})[:1500], {"case": d, "monitor": "prefix_chain"})
     print("store done at %.0fs" % (_t.time() - ck.t0), file=sys.stderr)
     ck.add_group("store_after_every_step", len(chains), len(chains), [])
 
@@ -117,7 +117,7 @@ def main():
                     ck.known_finding(kf, "history appends observed in the trace are ill-formed")
                     continue
                 d["trace"] = tdesc[i].trace_term
-                ck.violation("the history appends observed at the store are ill-formed or disagree with the notifications: %s" % json.dumps({k: d[k] for k in ("profile", "schedule", "definition", "inputs")})[:1500], {"case": d, "monitor": f})
+                ck.violation("the history appends observed at the store are ill-formed or disagree with the notifications: %s" % json.dumps({k: d[k] for k in ("profile", "schedule", "definition", "child_definition", "inputs") if k in d})[:1500], {"case": d, "monitor": f})
     ck.add_group("trace", len(tcases), len(tcases), [])
     ck.cov["rule"] = ("the campaign of C02 (sequential / fan-out / fan-out with task errors, 1-3 concurrent executions, canonical and random schedules) plus EXPRESS runs; "
                       "GetExecutionHistory (both orders) and DescribeExecution through either front end at the end of each run; the history store sampled after every step; "
